@@ -19,9 +19,9 @@ NoV == [n |-> 0, k |-> "none", o |-> "none"]
 NoO == [n |-> 0, o |-> "none"]
 
 VARIABLES l, sc, L1, L2, L3, inCr, fS, fL, run, cnt, mpc, orderOK, erCnt, seenRefs, reentered,
-          failedEver, created, depsOK, popOK, endOK, faultOK, lazyOK, selfOnlyOK, lookupOK, procOK
+          failedEver, created, depsOK, popOK, endOK, faultOK, lazyOK, selfOnlyOK, lookupOK, procOK, firstRun, sameOK
 vars == <<l, sc, L1, L2, L3, inCr, fS, fL, run, cnt, mpc, orderOK, erCnt, seenRefs, reentered,
-          failedEver, created, depsOK, popOK, endOK, faultOK, lazyOK, selfOnlyOK, lookupOK, procOK>>
+          failedEver, created, depsOK, popOK, endOK, faultOK, lazyOK, selfOnlyOK, lookupOK, procOK, firstRun, sameOK>>
 
 ScOf(j) == [single   |-> [n \in Node |-> ToSet(j.single[n])],
             selfOpt  |-> [n \in Node |-> j.selfOpt[n]],
@@ -35,7 +35,14 @@ ScOf(j) == [single   |-> [n \in Node |-> ToSet(j.single[n])],
             sparse   |-> j.sparse]
 
 ZeroCnt == [c \in Callbacks |-> 0]
+NoFirst == [set |-> FALSE]
+\* C10: what a run leaves behind, as far as it must not depend on any order: the status and, per holder, the
+\* SET of objects in its fields (slice element order is free)
+Outcome(st, ok) == [ok |-> ok, fS |-> IF sc.sparse THEN ToSet(st.fS) ELSE {[h |-> h, t |-> t, v |-> st.fS[h][t]] : h \in Node, t \in Node},
+                    fL |-> IF sc.sparse THEN {[h |-> x.h, v |-> x.v] : x \in ToSet(st.fL)}
+                           ELSE UNION {{[h |-> h, v |-> st.fL[h][i]] : i \in 1..Len(st.fL[h])} : h \in Node}]
 FreshP(s) ==
+  /\ firstRun' = (IF firstRun.set /\ firstRun.sc = s THEN firstRun ELSE NoFirst) /\ sameOK' = sameOK
   /\ sc' = s
   /\ L1' = [n \in Node |-> NoV] /\ L2' = [n \in Node |-> NoV] /\ L3' = {} /\ inCr' = {}
   /\ fS' = {} /\ fL' = {}
@@ -50,7 +57,7 @@ Init ==
   /\ run = "running" /\ cnt = [n \in Node |-> ZeroCnt] /\ mpc = [n \in Node |-> "idle"]
   /\ orderOK = TRUE /\ erCnt = [n \in Node |-> 0] /\ seenRefs = [n \in Node |-> {}]
   /\ reentered = FALSE /\ failedEver = FALSE /\ created = {} /\ depsOK = TRUE /\ popOK = TRUE /\ endOK = TRUE /\ faultOK = TRUE /\ lazyOK = TRUE
-  /\ selfOnlyOK = TRUE /\ lookupOK = TRUE /\ procOK = TRUE
+  /\ selfOnlyOK = TRUE /\ lookupOK = TRUE /\ procOK = TRUE /\ firstRun = NoFirst /\ sameOK = TRUE
 
 E == Trace[l]
 
@@ -133,6 +140,10 @@ Step ==
           /\ failedEver' = (failedEver \/ (E.ev = "createEnd" /\ ~E.ok) \/ (E.ev = "get" /\ E.err))
           /\ created' = IF E.ev = "createBegin" THEN created \cup {E.n} ELSE created
           /\ procOK' = (procOK /\ ProcCheck)
+          \* C10: every run of one scenario (whatever the registration / candidate / creation-relevant orders) ends alike
+          /\ firstRun' = IF E.ev = "runReturn" /\ ~firstRun.set THEN [set |-> TRUE, sc |-> sc, out |-> Outcome(E.st, E.ok)] ELSE firstRun
+          /\ sameOK' = (sameOK /\ ((E.ev = "runReturn" /\ firstRun.set /\ firstRun.sc = sc) =>
+                                       (firstRun.out.ok = E.ok /\ (E.ok => firstRun.out = Outcome(E.st, E.ok)))))
           /\ depsOK' = (depsOK /\ DepsCheck) /\ popOK' = (popOK /\ PopCheck) /\ endOK' = (endOK /\ EndCheck)
           /\ faultOK' = (faultOK /\ FaultCheck) /\ lazyOK' = (lazyOK /\ LazyCheck) /\ selfOnlyOK' = (selfOnlyOK /\ SelfOnlyCheck)
           \* what GetComponentByName hands to the user is the published object, never a half-built one
@@ -172,6 +183,7 @@ M_C05_PopulatedBeforeInit == popOK
 M_C05_AllCallbacks == endOK
 M_C05_Lazy == lazyOK
 M_C05_LazyProcs == procOK
+M_C10_EngineSameOutcome == sameOK
 M_C09_FaultFails == faultOK
 M_C02_FailIffSelfOnly == selfOnlyOK
 M_C09_NoPanic == run # "panic"
